@@ -7,7 +7,8 @@ import Driver.Util
               (head: ints `,`-separated; valid/filename: hex; the six vectors: hex tokens `,`-separated)
   morph <shape n,..|-> <vals u32,..|-> <fnum>
   annot <origIds 0|1> <fill 0|1> <has5 0|1> <labels int,..|-> <rows r:g:b:t:a;..|-> <names hex;..|->
-  mgh   <shape> <dtype> <data u32,..|-> <affDelta u32,u32,u32> <setZ `_`|u32,..|-> <ftrSets i:v;..|->
+  mgh   <shape> <dtype> <data u32,..|-> <affDelta u32,u32,u32> <ras hex (48 bytes)> <setZ `_`|u32,..|-> <ftrSets i:v;..|->
+  mghload <file hex>                   MGHHeader.from_fileobj + data_from_fileobj on arbitrary file bytes
   zoom  <shape> <zs u32,..|->          bare MGHHeader: set_data_shape(shape); set_zooms(zs)
   hex tokens: `-` = empty byte string inside `;`/space separated fields, `_` inside `,` lists. -/
 namespace Nb.Drv.C19
@@ -143,17 +144,27 @@ def handle : List String → String
             | .ok a => "ok " ++ hexOf file ++ " labels=" ++ showList a.labels ++ " ctab=[" ++
                 ",".intercalate (a.ctab.map showRow) ++ "] names=" ++ showHexList a.names
       | _, _, _, _, _, _ => "bad-op"
-  | ["mgh", shape, dt, data, aff, setz, sets] =>
-      match parseNatList? shape, parseNatList? data, parseNatList? aff, parseOptNatList? setz, parseSets? sets with
-      | some shape, some data, some aff, some setz, some sets =>
+  | ["mgh", shape, dt, data, aff, ras, setz, sets] =>
+      match parseNatList? shape, parseNatList? data, parseNatList? aff, parseHex? ras, parseOptNatList? setz,
+            parseSets? sets with
+      | some shape, some data, some aff, some ras, some setz, some sets =>
           if aff.length ≠ 3 || !(allU32 aff) || !(allU32 data) || !((setz.map allU32).getD true)
-             || data.length ≠ prod shape then "bad-op" else
-          match mghSaveLoad shape dt data aff (zeros 48) setz sets with
+             || data.length ≠ prod shape || ras.length ≠ 48 then "bad-op" else
+          match mghSaveLoad shape dt data aff ras setz sets with
           | .error e => errStr e
           | .ok o => "ok hz=" ++ showList o.hz ++ " file=" ++ hexOf o.file ++ " shape=" ++ showList o.shape ++
               " code=" ++ toString o.code ++ " zooms=" ++ showList o.zooms ++ " ftr=" ++ showList o.ftr ++
-              " data=" ++ showList o.data
-      | _, _, _, _, _ => "bad-op"
+              " data=" ++ showList o.data ++ " ras=" ++ hexOf o.ras
+      | _, _, _, _, _, _ => "bad-op"
+  | ["mghload", file] =>
+      match parseHex? file with
+      | some file =>
+          match readMgh file with
+          | .error e => errStr e
+          | .ok (h, ras, data) => "ok dims=" ++ showList h.dims.toList ++ " shape=" ++ showList (getDataShape h.dims) ++
+              " code=" ++ toString h.code ++ " zooms=" ++ showList (getZooms h) ++ " ras=" ++ hexOf ras ++
+              " ftr=" ++ showList h.ftr ++ " data=" ++ showList data
+      | none => "bad-op"
   | ["zoom", shape, zs] =>
       match parseNatList? shape, parseNatList? zs with
       | some shape, some zs =>
